@@ -23,6 +23,8 @@ if "--tier" in args:
 ID, k, crate = args[0], args[1], args[2]
 props = args[3:]
 src = "/tmp/seed/%s/out/%s" % (ID, k)
+if not os.path.isdir(src):
+    src = "/verif/seeded/%s-%s" % (ID, k)
 patch = os.path.join(src, "patch.diff")
 demo = os.path.join(src, "demo.rs")
 WT = "/tmp/seedval"
@@ -36,6 +38,16 @@ if not os.path.isdir(WT):
 sh("git checkout -q --detach $(git -C /repo rev-parse HEAD) && git checkout -- . && git clean -fdq -e target")
 meta = {"id": "%s-%s" % (ID, k), "breaks_property": ID, "checks_run": props, "tier": tier, "source": "written by an independent sub-agent given only the property text"}
 r = sh("git apply --check %s && git apply %s" % (patch, patch))
+if r.returncode != 0:
+    # written against a slightly older HEAD (before the pause-point hooks):
+    # apply with reduced context and keep the rebased patch
+    r = sh("git apply -C1 --recount %s" % patch)
+    if r.returncode == 0:
+        rebased = "/tmp/seedval/rebased.diff"
+        d = sh("git diff")
+        open(rebased, "w").write(d.stdout)
+        patch = rebased
+        meta["patch_rebased"] = "context lines changed by the later hook commit b8ac502; applied with git apply -C1 and re-diffed"
 meta["patch_applies"] = r.returncode == 0
 if r.returncode != 0:
     print("PATCH DOES NOT APPLY", r.stderr); sys.exit(1)
@@ -76,8 +88,9 @@ meta["check_results"] = results
 meta["detected_by"] = [p for p, v in results.items() if v["exit"] == 1]
 out = "/verif/seeded/%s-%s" % (ID, k)
 os.makedirs(out, exist_ok=True)
-shutil.copy(patch, out); shutil.copy(demo, out)
-if os.path.exists(os.path.join(src, "NOTES.md")):
+if os.path.abspath(src) != os.path.abspath(out):
+    shutil.copy(patch, out); shutil.copy(demo, out)
+if os.path.abspath(src) != os.path.abspath(out) and os.path.exists(os.path.join(src, "NOTES.md")):
     shutil.copy(os.path.join(src, "NOTES.md"), out)
 meta["demo_crate"] = crate
 meta["ran"] = ["cargo test --workspace (with change)", "cargo test -p %s --test demo (with / without change)" % crate] + ["./check %s %s (change applied to /repo, reverted afterwards)" % (p, tier) for p in props]
